@@ -161,7 +161,7 @@ def generate_jaqal_block(statement, depth, indent_first_line):
     if statement.subcircuit:
         output += "subcircuit "
         if statement.iterations != 1:
-            output += f"{statement.iterations} "
+            output += f"{generate_jaqal_value(statement.iterations)} "
     if statement.parallel:
         output += "<\n"
     else:
